@@ -652,6 +652,48 @@ func c17(args []string) int {
 			out.Count("logger_streams_cut_and_mutated", 1)
 		}
 	}
+	// well-formed events in which the members a consumer interprets (level, time, message, error, caller) hold every kind
+	// of value: ConsoleWriter and the journald writer decode such an event and then look at those members
+	if f.Shard == 0 {
+		e := cbor.Encoder{}
+		vals := []func([]byte) []byte{
+			func(d []byte) []byte { return e.AppendInt(d, 1) },
+			func(d []byte) []byte { return e.AppendInt(d, -7) },
+			func(d []byte) []byte { return e.AppendUint64(d, math.MaxUint64) },
+			func(d []byte) []byte { return e.AppendFloat64(d, 1.5, -1) },
+			func(d []byte) []byte { return e.AppendFloat64(d, math.NaN(), -1) },
+			func(d []byte) []byte { return e.AppendBool(d, true) },
+			func(d []byte) []byte { return e.AppendNil(d) },
+			func(d []byte) []byte { return e.AppendString(d, "text") },
+			func(d []byte) []byte { return e.AppendString(d, "") },
+			func(d []byte) []byte { return e.AppendBytes(d, []byte{1, 2}) },
+			func(d []byte) []byte { return e.AppendInts(d, []int{1, 2}) },
+			func(d []byte) []byte { return e.AppendArrayEnd(e.AppendArrayStart(d)) },
+			func(d []byte) []byte { return e.AppendEndMarker(e.AppendString(e.AppendKey(e.AppendBeginMarker(d), "k"), "v")) },
+			func(d []byte) []byte { return e.AppendEndMarker(e.AppendBeginMarker(d)) },
+			func(d []byte) []byte { return e.AppendTime(d, time.Unix(1700000000, 5), "") },
+			func(d []byte) []byte { return e.AppendHex(d, []byte{0xab}) },
+			func(d []byte) []byte { return cbor.AppendEmbeddedJSON(d, []byte(`{"j":1}`)) },
+		}
+		keys := []string{"level", "time", "message", "error", "caller", "stack", "", "MESSAGE", "PRIORITY"}
+		for _, k := range keys {
+			for vi, mk := range vals {
+				in := e.AppendEndMarker(mk(e.AppendKey(e.AppendBeginMarker(nil), k)))
+				s.feed(in, "consumer-key")
+				c17consumers(s, in)
+				// and next to ordinary members
+				in2 := e.AppendBeginMarker(nil)
+				in2 = e.AppendString(e.AppendKey(in2, "level"), "info")
+				in2 = mk(e.AppendKey(in2, k))
+				in2 = e.AppendString(e.AppendKey(in2, "z"), "after")
+				in2 = e.AppendEndMarker(in2)
+				s.feed(in2, "consumer-key")
+				c17consumers(s, in2)
+				out.Count("consumer_key_inputs", 2)
+				_ = vi
+			}
+		}
+	}
 	// streams longer than the decoder's read buffer whose event boundaries fall exactly on multiples of 4096 (and one
 	// byte before / after): every cut point again
 	if f.Shard < 6 {
